@@ -338,28 +338,29 @@ def inplace_pt(i, r, case):
                 if storage != 'contig' and len(pa[0]) < 2:
                     continue
                 for name, f in ops:
-                    key = (case, pa, pb, storage, name)
-                    try:
-                        src = P.instantiate(pa, 1., storage=storage)
-                        other = P.instantiate(pb, 1., offset=3)
-                        s0, o0 = snap_pt(src), snap_pt(other)
-                        c = src.clone()
-                        if storage == 'expanded' and name in ('physical.add_',):
-                            pass
-                        f(c, other)
-                        r.trans += 1
-                        if snap_pt(src) != s0:
-                            r.bad('clone-aliases-source', 'indices.PatternedTensor.clone', 'inplace', '%s on a clone of %s (%s) changed the source' % (name, P.show(pa), storage), ('I', i), key)
-                            continue
-                        if snap_pt(other) != o0:
-                            r.bad('clone-aliases-source', 'indices.PatternedTensor.' + name.split(' ')[0], 'inplace', '%s with argument %s changed the argument' % (name, P.show(pb)), ('I', i), key)
-                            continue
-                        r.ok(key, outcome='inplace', nontrivial=True)
-                    except Exception as e:
-                        if name in ('physical.add_', 'copy_ then write') and 'single memory location' in str(e):
-                            r.ok(key, outcome='inplace-refused', nontrivial=False)
-                        else:
-                            r.exc(e, 'inplace', ('I', i), key)
+                    for grad in ((False, True) if storage == 'contig' else (False,)):
+                        key = (case, pa, pb, storage, name, grad)
+                        try:
+                            src = P.instantiate(pa, 1., storage=storage)
+                            if grad:
+                                src.physical.requires_grad_(True)      # e.g. factor weights that are being trained
+                            other = P.instantiate(pb, 1., offset=3)
+                            s0, o0 = snap_pt(src), snap_pt(other)
+                            c = src.clone()
+                            f(c, other)
+                            r.trans += 1
+                            if snap_pt(src) != s0:
+                                r.bad('clone-aliases-source', 'indices.PatternedTensor.clone', 'inplace', '%s on a clone of %s (%s, requires_grad=%s) changed the source' % (name, P.show(pa), storage, grad), ('I', i), key)
+                                continue
+                            if snap_pt(other) != o0:
+                                r.bad('clone-aliases-source', 'indices.PatternedTensor.' + name.split(' ')[0], 'inplace', '%s with argument %s changed the argument' % (name, P.show(pb)), ('I', i), key)
+                                continue
+                            r.ok(key, outcome='inplace', nontrivial=True)
+                        except Exception as e:
+                            if name in ('physical.add_', 'copy_ then write') and 'single memory location' in str(e):
+                                r.ok(key, outcome='inplace-refused', nontrivial=False)
+                            else:
+                                r.exc(e, 'inplace', ('I', i), key)
 
 
 def inplace_mt(r, case):
